@@ -4,8 +4,8 @@ import json, os
 HERE = os.path.dirname(os.path.abspath(__file__))
 props = [json.loads(l) for l in open(os.path.join(HERE, "properties.jsonl"))]
 
-SYMX = "symbolic execution of the real %s on SYMX proxies (uninterpreted functions, symbolic reals) + z3 VC per slot/field; counterexamples replayed concretely through the public API"
-NOTE = "floats modelled as reals (last-ulp rounding outside the claim); loop counts concrete per run (unwinding) over the stated sizes; independent format readers in readers/ are trusted; divisions met on a path are assumed defined"
+SYMX = "symbolic execution of the real %s on SYMX proxies (uninterpreted functions, symbolic reals) + z3 VC per slot/field, incl. a second write of the same object after the functions were changed in place and the evaluation points under floating point (rounding-error model proved by z3, Float64 witness search); counterexamples replayed concretely through the public API"
+NOTE = "floats modelled as reals except in the evaluation-point sub-check (rounding-error model + Float64 witness search, DESIGN 8.3); last ulps of printed values outside the claim; loop counts concrete per run (unwinding) over the stated sizes; independent format readers in readers/ are trusted; divisions met on a path are assumed defined"
 CLAIMED = {
   "C01": (SYMX % "LAMMPS pair-table writer, Potential.force/gradient and the potable factory route",
           "bounded symbolic model checking: for every nr in the stated set, every cutoff>0 and every potential function (uninterpreted, with and without analytic derivative), each header field and table slot equals the specification term; potable route with symbolic form parameters",
